@@ -540,9 +540,20 @@ def roundtrip_problems(ctx, race, cfg):
     if flat_after != flat_before:
         probs.append(("store-roundtrip-flat", "as_flat_list() differs after the round trip: " + first_diff(flat_before, flat_after)[:300], {"metric": "storage"}))
     ctx.clause("store-roundtrip-reader-view")
-    view_ok = after.tasks() == tasks_before and all(after.metrics(t) == race.results.metrics(t) for t in tasks_before)
+    # what `esrally compare` reads for a task must be THAT task's record (looked up here independently by its task name)
+    truth = {o.get("task"): o for o in before.get("op_metrics", [])}
+    wrong = []
+    for t in tasks_before:
+        try:
+            got = after.metrics(t)
+        except Exception as e:
+            got = f"{type(e).__name__}: {e}"
+        if got != truth.get(t):
+            wrong.append(t)
+    view_ok = after.tasks() == tasks_before and not wrong
     if not view_ok or back.race_id != race.race_id or back.race_timestamp != race.race_timestamp:
-        probs.append(("store-roundtrip-reader-view", f"tasks()/metrics(task) as the comparison reads them differ: {tasks_before} before, {after.tasks()} after", {"metric": "storage"}))
+        probs.append(("store-roundtrip-reader-view", f"tasks()/metrics(task) as the comparison reads them: tasks {tasks_before} before, {after.tasks()} after; metrics(task) returns another "
+                      f"record than the task's own for {wrong}", {"metric": "storage"}))
     ctx.clause("store-roundtrip-list")
     listed = [r for r in metrics.race_store(cfg).list() if r.race_id == race.race_id]
     if len(listed) != 1 or metrics.GlobalStats(listed[0].results).as_dict() != before:
